@@ -129,12 +129,12 @@ def run(ctx: common.Ctx):
     # ---------------- result_type tables --------------------------------------------------
     pairs = list(itertools.product(names, repeat=2))
     triples = list(itertools.product(names, repeat=3))
-    pair_out = tables.pmap(tables.result_type_row, pairs)
-    pair_arr_out = tables.pmap(tables.result_type_array_row, pairs)
-    triple_out = tables.pmap(tables.result_type_row, triples, chunk=512)
+    pair_out = tables.pmap(tables.result_type_row, pairs, strict=True)
+    pair_arr_out = tables.pmap(tables.result_type_array_row, pairs, strict=True)
+    triple_out = tables.pmap(tables.result_type_row, triples, chunk=512, strict=True)
     single_out = [tables.result_type_row((d,)) for d in names]
     scal_jobs = [(d, k, first) for d in names for k in PY_SCALARS for first in (False, True)]
-    scal_out = tables.pmap(tables.promote_scalar_row, scal_jobs)
+    scal_out = tables.pmap(tables.promote_scalar_row, scal_jobs, strict=True)
     model = common.model([f"rt {a} {b}" for a, b in pairs] + [f"rt {a} {b} {c}" for a, b, c in triples]
                          + [f"scalar {d} {k}" for d, k, _ in scal_jobs] + [f"rt {d}" for d in names])
     m_pair = model[:len(pairs)]
@@ -260,7 +260,7 @@ end Gen.ResultType
     quick = ctx.tier == "quick"
     wjobs = [(ck, a, b) for ck in ("lazy", "lazy-nbool", "py-true", "py-false", "const-true-1d", "const-false-0d")
              for a, b in (pairs if not quick or ck in ("lazy", "py-true") else ctx.rng.sample(pairs, 200))]
-    wout = tables.pmap(where_row, wjobs)
+    wout = tables.pmap(where_row, wjobs, strict=True)
     for (ck, a, b), o in zip(wjobs, wout):
         want = rt([a, b])
         if want != "TypeError" and ck == "lazy-nbool" and want == core_of(want):
@@ -281,7 +281,7 @@ end Gen.ResultType
                "expand_dims", "squeeze", "permute_dims", "broadcast_to", "zeros_like", "ones_like",
                "full_like", "isin", "getitem", "copy"):
         mjobs += [(fn, (d,)) for d in names]
-    mout = tables.pmap(misc_row, mjobs)
+    mout = tables.pmap(misc_row, mjobs, strict=True)
     for (fn, ds), o in zip(mjobs, mout):
         law = misc_law(fn, ds, rt)
         ctx.evaluations += 1
